@@ -84,6 +84,7 @@ mod cache_locality;
 pub use zipora_hash_map::{
     ZiporaHashMap, ZiporaHashMapConfig, HashMapStats,
     HashStrategy, StorageStrategy, OptimizationStrategy,
+    ZiporaHashMapIterator,
 };
 
 // GoldHashMap - High-performance hash table with link-based collision resolution
